@@ -628,7 +628,7 @@ fn eval_determinism(ev: &mut VmEval, case: &VmCase, specs: &[SchedSpec]) {
     ev.outcome_hash = hash_outcome(&Ok((o0.result.clone(), o0.state.clone())));
 }
 
-fn compare_with_model(m: &MOutcome, o: &VmOutcome) -> Result<(), String> {
+fn compare_with_model(m: &MOutcome, o: &VmOutcome, compute_pcs: &[usize]) -> Result<(), String> {
     match (&m.result, &o.result) {
         (Ok(t), VmResult::Ok { gas }) => {
             if *t != *gas as u128 {
@@ -640,7 +640,10 @@ fn compare_with_model(m: &MOutcome, o: &VmOutcome) -> Result<(), String> {
             Ok(())
         }
         (Err(e), VmResult::Err { pc, kind, .. }) => {
-            if e.pc != *pc || e.kind != *kind {
+            // how a failing Compute is reported (which error type wraps it) is not fixed by the
+            // statement ("… fails the parent"): for the Compute op itself only the position counts
+            let at_compute = matches!(e.kind.as_str(), "Compute" | "Memory") && compute_pcs.contains(&e.pc);
+            if e.pc != *pc || (e.kind != *kind && !at_compute) {
                 return Err(format!("error: reference {}@{}, actual {kind}@{pc}", e.kind, e.pc));
             }
             Ok(())
@@ -717,7 +720,14 @@ fn eval_forkjoin(ev: &mut VmEval, case: &VmCase, spec: &SchedSpec, frames: bool)
     if !m.forks.is_empty() {
         ev.note("forked");
     }
-    if let Err(msg) = compare_with_model(&m, &o) {
+    let compute_pcs: Vec<usize> = case
+        .ops()
+        .iter()
+        .enumerate()
+        .filter(|(_, o)| **o == COM())
+        .map(|(i, _)| i)
+        .collect();
+    if let Err(msg) = compare_with_model(&m, &o, &compute_pcs) {
         ev.finding = Some(finding("forkjoin-mismatch", format!("{msg} [{}]", case.shape)));
         return;
     }
